@@ -16,6 +16,7 @@ import copy
 import importlib
 import json
 import random
+import traceback
 
 from hv import core
 
@@ -90,6 +91,61 @@ def drain_copy(pol):
             break
         out.append(int(k[1:]))
     return out
+
+
+class _GenShadow:
+    """Generator-side bookkeeping of "which keys would a cache hold now".  Case generation must not
+    depend on the implementation behaving sanely: the held set is kept by the harness itself
+    (insert adds, remove discards, clear empties); the real policy is asked only *which* key an
+    evict() names, every call into it is guarded, and after the first exception (or a nonsensical
+    answer) the shadow stops consulting it and picks the victim itself (first held key in the
+    case's priority order).  Whatever happens the case is kept and reaches run_impl, where an
+    exception of the implementation is an observation (IMPL-EXC), not a harness failure."""
+
+    def __init__(self, name, arg):
+        self.clock = [0]
+        self.held = set()
+        self.pol = self.orc = None
+        try:
+            self.pol, self.orc = make_policy(name, arg, lambda: float(self.clock[0]))
+        except Exception:
+            self.pol = None
+
+    def _call(self, f, *a):
+        if self.pol is None:
+            return None
+        try:
+            return f(*a)
+        except Exception:
+            self.pol = None          # implementation raised: from here on the shadow is on its own
+            return None
+
+    def apply(self, op):
+        self.clock[0] = op[1]
+        kind = op[0]
+        if kind == "i":
+            self._call(lambda: self.pol.on_insert(K(op[2])))
+            self.held.add(op[2])
+        elif kind == "a":
+            self._call(lambda: self.pol.on_access(K(op[2])))
+        elif kind == "r":
+            self._call(lambda: self.pol.on_remove(K(op[2])))
+            self.held.discard(op[2])
+        elif kind == "e":
+            if self.orc is not None:
+                self.orc.prio = op[2:]
+            k = self._call(lambda: self.pol.evict())
+            v = None
+            if isinstance(k, str) and k[1:].isdigit() and int(k[1:]) in self.held:
+                v = int(k[1:])
+            elif self.held:
+                prio = list(op[2:])
+                v = min(self.held, key=lambda x: prio.index(x) if x in prio else len(prio) + x)
+            if v is not None:
+                self.held.discard(v)
+        else:
+            self._call(lambda: self.pol.clear())
+            self.held = set()
 
 
 MS = 1_000_000
@@ -241,25 +297,34 @@ def run_store_sim(case, repo_cls=None):
                     snap(i)
                     return e.value
 
-            if kind == "get":
-                r = yield from traced(cache.get(K(op[2])))
-            elif kind == "put":
-                r = yield from traced(cache.put(K(op[2]), vt.enc(op[3])))
-            elif kind == "del":
-                r = yield from traced(cache.delete(K(op[2])))
-            elif kind == "flush":
-                order = " ".join(str(int(k[1:])) for k in cache.get_dirty_keys())
-                r = yield from traced(cache.flush(), (" " + order) if order else "")
-            elif kind == "inv":
-                sched.append(f"adv {i} {self.now.nanoseconds}")
-                r = cache.invalidate(K(op[2]))
-                snap(i)
-            elif kind == "invall":
-                sched.append(f"adv {i} {self.now.nanoseconds}")
-                r = cache.invalidate_all()
-                snap(i)
-            else:
+            if kind not in ("get", "put", "del", "flush", "inv", "invall"):
                 raise ValueError(kind)
+            try:
+                if kind == "get":
+                    r = yield from traced(cache.get(K(op[2])))
+                elif kind == "put":
+                    r = yield from traced(cache.put(K(op[2]), vt.enc(op[3])))
+                elif kind == "del":
+                    r = yield from traced(cache.delete(K(op[2])))
+                elif kind == "flush":
+                    order = " ".join(str(int(k[1:])) for k in cache.get_dirty_keys())
+                    r = yield from traced(cache.flush(), (" " + order) if order else "")
+                elif kind == "inv":
+                    sched.append(f"adv {i} {self.now.nanoseconds}")
+                    r = cache.invalidate(K(op[2]))
+                    snap(i)
+                elif kind == "invall":
+                    sched.append(f"adv {i} {self.now.nanoseconds}")
+                    r = cache.invalidate_all()
+                    snap(i)
+            except Exception as e:
+                # the cache operation raised: an observation (the operation never returns; judged as
+                # store/op/raised after the clauses on the snapshots), the other operations go on
+                if not any(str(core.REPO) in fr.filename for fr in traceback.extract_tb(e.__traceback__)):
+                    raise
+                snap(i)
+                out.append(f"ret {i} raised:{type(e).__name__}")
+                return
             out.append(f"ret {i} {fmt_res(kind, r, vt)}")
 
     cl = Client("client")
@@ -456,9 +521,14 @@ class C16(core.Property):
     thorough_cases = 60000
     rule = ("family policy: ≤150 direct calls (on_access/on_insert/on_remove/evict/clear) on one of the nine policies over ≤4 keys, "
             "80 % following the cache's protocol (insert only untracked keys, evict when full at capacity 1–4), TTL clock readings on the "
-            "ttl boundary (and stepping back), RNG draws given as priority lists; family store: real Simulation, CachedStore(capacity 1–3) "
+            "ttl boundary (and stepping back), RNG draws given as priority lists; 30 % of the policy cases are clear() rounds for every one of the nine policies "
+            "(fill to capacity, touch, clear(), re-insert the SAME keys, insert further keys with evict-when-full, remove / touch the re-inserted keys, 1–3 rounds), "
+            "and for every case containing a clear() the calls after the last one are replayed on a freshly constructed policy (companion run of the clear law); "
+            "a call that raises ends the policy run and is judged; the generator keeps its own held-set (the real policy is only asked, guardedly, which key an evict names); family store: real Simulation, CachedStore(capacity 1–3) "
             "over KVStore with read/write/delete latencies 1–8 ms, 3–16 get/put/delete/invalidate/invalidate_all/flush operations issued "
             "sequentially, at 0–6 ms spacing or exactly one latency apart (overlaps and ties), all nine policies × write-through/write-back, "
+            "30 % of the store cases open with invalidate_all() rounds (fill, read, invalidate_all, the same keys written / read again, then other keys until the cache is full and evicts, "
+            "delete / invalidate of re-inserted keys); a cache operation that raises is recorded and judged (store/op/raised) while the other operations go on; "
             "written values are opaque identities mapped per case to the int itself or to a falsy-but-not-None python object (0, 0.0, '', False, (), b'', frozenset(), 0j, fresh [] / {} / set() / bytearray(), "
             "user objects with __bool__ False or __len__ 0; none / 30 % / 60 % / all of the values of a script), for every policy × write mode; "
             "30 % of the store cases add a CacheWarmer (0–6 keys with repeats and absent keys, 1–10 ms apart, list or callable provider) started at 0, on/next to an operation or right after an invalidate_all, running next to the client traffic; "
@@ -583,13 +653,54 @@ class C16(core.Property):
         t = 0
         ops = []
         hot = rng.randrange(nk)
-        for j in range(n):
+
+        def gap():
             if style < 0.25:
-                t += rng.choice([10, 12, 20]) * MS            # sequential: no overlaps
-            elif style < 0.6:
-                t += rng.choice([0, 0, 500_000, MS, MS, 2 * MS, 4 * MS, 5 * MS, 6 * MS])
-            else:
-                t += rng.choice([0, 100_000, MS, lat["rl"], lat["wl"], lat["wl"] - lat["rl"], 7 * MS])
+                return rng.choice([10, 12, 20]) * MS            # sequential: no overlaps
+            if style < 0.6:
+                return rng.choice([0, 0, 500_000, MS, MS, 2 * MS, 4 * MS, 5 * MS, 6 * MS])
+            return rng.choice([0, 100_000, MS, lat["rl"], lat["wl"], lat["wl"] - lat["rl"], 7 * MS])
+
+        if rng.random() < 0.3:
+            # invalidate_all() (policy.clear()) rounds: fill the cache, touch the entries, drop everything,
+            # bring the SAME keys back (writes and miss fills), then other keys until the cache is full
+            # and must evict, then delete / invalidate / re-read the re-inserted keys.  Whatever per-key
+            # state a policy keeps besides its key collection has to be gone after the clear.
+            cap = rng.choice([1, 2, 2, 3])
+            nk = NKEYS if cap < 3 or rng.random() < 0.7 else nk
+            hot = rng.randrange(nk)
+            for _ in range(rng.choice([1, 1, 2])):
+                first = rng.sample(range(nk), min(nk, rng.choice([cap, cap, cap + 1])))
+                for k in first:
+                    t += gap()
+                    ops.append([t, "put", k, 0] if rng.random() < 0.7 else [t, "get", k])
+                    if rng.random() < 0.4:
+                        t += gap()
+                        ops.append([t, "get", rng.choice(first)])
+                t += rng.choice([gap(), 10 * MS, 10 * MS])
+                ops.append([t, "invall"])
+                again = list(first)
+                if rng.random() < 0.4:
+                    rng.shuffle(again)
+                for k in again:
+                    t += gap()
+                    ops.append([t, "put", k, 0] if rng.random() < 0.6 else [t, "get", k])
+                others = [k for k in range(nk) if k not in first] or list(range(nk))
+                for _ in range(rng.choice([1, 2, 3, 4])):
+                    t += gap()
+                    r = rng.random()
+                    k = rng.choice(others) if rng.random() < 0.7 else rng.choice(first)
+                    if r < 0.55:
+                        ops.append([t, "put", k, 0])
+                    elif r < 0.8:
+                        ops.append([t, "get", k])
+                    elif r < 0.9:
+                        ops.append([t, "del", rng.choice(first)])
+                    else:
+                        ops.append([t, "inv", rng.choice(first)])
+            n = rng.choice([0, 2, 4, 8])
+        for j in range(n):
+            t += gap()
             k = hot if rng.random() < 0.5 else rng.randrange(nk)
             r = rng.random()
             if r < 0.34:
@@ -646,58 +757,99 @@ class C16(core.Property):
             arg = rng.choice([1, 2, 3, 5])
         wf = rng.random() < 0.8          # follow the cache's protocol (insert only untracked keys)
         cap = rng.choice([1, 2, 3, 4])
-        held = set()
+        refill = rng.random() < 0.3      # clear() / re-insertion of the same keys / capacity pressure rounds
+        sh = _GenShadow(name, arg)       # harness-side bookkeeping of the held keys (never trusts the policy)
         now = 0
         ops = []
-        for _ in range(ln):
-            r = rng.random()
+
+        def emit(op):
+            ops.append(op)
+            sh.apply(op)
+
+        def tick():
+            nonlocal now
             if name == "ttl":
                 now += rng.choice([0, 0, 1, 1, 2, arg, arg - 1 if arg > 1 else 1])
                 if rng.random() < 0.05:
                     now = max(0, now - rng.choice([1, 2]))   # clock_func is arbitrary: may step back
+
+        def put(k):
+            """what CachedStore._cache_put does: access if held, else evict while full, then insert"""
+            if k in sh.held:
+                emit(["a", now, k])
+                return
+            if len(sh.held) >= cap:
+                emit(["e", now] + rng.sample(range(NKEYS), NKEYS))
+            emit(["i", now, k])
+
+        if refill:
+            # invalidate_all() is policy.clear(): whatever per-key state the policy keeps next to its
+            # key collection (reference bits, frequencies, segment membership, ghost entries, insertion
+            # times) must be gone too, or the keys re-inserted afterwards are mis-tracked.  Rounds of
+            # fill -> touch -> clear -> re-insert the SAME keys -> insert others until the cache is full
+            # and evicts -> remove / touch the re-inserted keys.
+            cap = rng.choice([1, 2, 2, 3])
+            nk = NKEYS
+            for _ in range(rng.choice([1, 1, 2, 3])):
+                first = rng.sample(range(nk), rng.choice([cap, cap, max(1, cap - 1), min(nk, cap + 1)]))
+                for k in first:
+                    tick()
+                    put(k)
+                    if rng.random() < 0.5:
+                        tick()
+                        emit(["a", now, rng.choice(first)])      # promote / set the reference bit / bump the count
+                if rng.random() < 0.3:
+                    tick()
+                    emit(["e", now] + rng.sample(range(NKEYS), NKEYS))
+                tick()
+                emit(["c", now])
+                again = list(first)
+                if rng.random() < 0.4:
+                    rng.shuffle(again)
+                for k in again[:rng.choice([len(again), len(again), max(1, len(again) - 1)])]:
+                    tick()
+                    put(k)
+                    if rng.random() < 0.3:
+                        tick()
+                        emit(["a", now, k])
+                others = [k for k in range(nk) if k not in first] or [rng.randrange(nk)]
+                for _ in range(rng.choice([1, 2, 3, 5])):
+                    tick()
+                    r = rng.random()
+                    if r < 0.6:
+                        put(rng.choice(others) if rng.random() < 0.7 else rng.randrange(nk))
+                    elif r < 0.75:
+                        emit(["r", now, rng.choice(first)])
+                    elif r < 0.9:
+                        emit(["a", now, rng.choice(first)])
+                    else:
+                        emit(["e", now] + rng.sample(range(NKEYS), NKEYS))
+            ln = rng.choice([0, 3, 10, 24])
+        for _ in range(ln):
+            r = rng.random()
+            tick()
             k = rng.randrange(nk)
             if r < 0.40:
-                if wf and k in held:
-                    ops.append(["a", now, k])
-                    continue
-                if wf and len(held) >= cap:
-                    prio = rng.sample(range(NKEYS), NKEYS)
-                    ops.append(["e", now] + prio)
-                    held = None  # resolved below by simulation of the result
-                ops.append(["i", now, k])
+                if wf:
+                    put(k)
+                else:
+                    emit(["i", now, k])
             elif r < 0.65:
-                ops.append(["a", now, k])
+                emit(["a", now, k])
             elif r < 0.78:
-                ops.append(["r", now, k])
+                emit(["r", now, k])
             elif r < 0.97:
-                ops.append(["e", now] + rng.sample(range(NKEYS), NKEYS))
+                emit(["e", now] + rng.sample(range(NKEYS), NKEYS))
             else:
-                ops.append(["c", now])
-            held = self._held_after(name, arg, ops)
+                emit(["c", now])
         return {"family": "policy", "policy": name, "arg": arg, "ops": ops}
 
     def _held_after(self, name, arg, ops):
-        # cheap reference for the generator only: replay on the real policy
-        clock = [0]
-        pol, orc = make_policy(name, arg, lambda: float(clock[0]))
-        held = set()
+        """the keys a protocol-following cache would hold after `ops` (generator-side bookkeeping)"""
+        sh = _GenShadow(name, arg)
         for op in ops:
-            clock[0] = op[1]
-            if op[0] == "i":
-                pol.on_insert(K(op[2])); held.add(op[2])
-            elif op[0] == "a":
-                pol.on_access(K(op[2]))
-            elif op[0] == "r":
-                pol.on_remove(K(op[2])); held.discard(op[2])
-            elif op[0] == "e":
-                if orc is not None:
-                    orc.prio = op[2:]
-                k = pol.evict()
-                if k is not None:
-                    held.discard(int(k[1:]))
-            else:
-                pol.clear(); held = set()
-        return held
+            sh.apply(op)
+        return set(sh.held)
 
     # ------------------------------------------------------------------ implementation
     def run_impl(self, case):
@@ -722,26 +874,43 @@ class C16(core.Property):
         return [l for l in impl_out if not l.startswith("#")]
 
     def impl_policy(self, case):
+        out = self._impl_policy_run(case, case["ops"])
+        # metamorphic companion run for the `clear` law (policy_clear_is_fresh): the calls after the
+        # last clear(), replayed on a freshly constructed policy, must be answered identically
+        cs = [j for j, op in enumerate(case["ops"]) if op[0] == "c"]
+        if cs and len(out) == len(case["ops"]) and not out[-1].startswith("exc "):
+            j = cs[-1]
+            fresh = self._impl_policy_run(case, case["ops"][j + 1:])
+            out = out + [f"#f {j + 1 + n} {l}" for n, l in enumerate(fresh)]
+        return out
+
+    def _impl_policy_run(self, case, ops):
         clock = [0]
         pol, orc = make_policy(case["policy"], case["arg"], lambda: float(clock[0]))
         det = orc is None
         out = []
-        for op in case["ops"]:
+        for op in ops:
             clock[0] = op[1]
             res = "-"
-            if op[0] == "i":
-                pol.on_insert(K(op[2]))
-            elif op[0] == "a":
-                pol.on_access(K(op[2]))
-            elif op[0] == "r":
-                pol.on_remove(K(op[2]))
-            elif op[0] == "e":
-                if orc is not None:
-                    orc.prio = op[2:]
-                k = pol.evict()
-                res = "-" if k is None else str(int(k[1:]))
-            elif op[0] == "c":
-                pol.clear()
+            try:
+                if op[0] == "i":
+                    pol.on_insert(K(op[2]))
+                elif op[0] == "a":
+                    pol.on_access(K(op[2]))
+                elif op[0] == "r":
+                    pol.on_remove(K(op[2]))
+                elif op[0] == "e":
+                    if orc is not None:
+                        orc.prio = op[2:]
+                    k = pol.evict()
+                    res = "-" if k is None else str(int(k[1:]))
+                elif op[0] == "c":
+                    pol.clear()
+            except Exception as e:
+                # a protocol call that raises is an observation (judged as policy/call/raised after the
+                # calls that did return); the object's state is undefined from here on, so the run ends
+                out.append(f"exc {type(e).__name__}")
+                break
             if orc is not None:
                 orc.prio = []
             d = drain_copy(pol)
@@ -798,12 +967,19 @@ class C16(core.Property):
             return EXT[fam].judge_block(case, impl_out)
         if fam == "policy":
             lines = self._pol_lines(case)
-            if len(lines) != len(impl_out):
+            fresh = [l[3:] for l in impl_out if l.startswith("#f ")]
+            impl_out = [l for l in impl_out if not l.startswith("#")]
+            raised = bool(impl_out) and impl_out[-1].startswith("exc ")
+            if len(lines) != len(impl_out) and not raised:
                 return None
             body = []
             for l, o in zip(lines, impl_out):
                 body.append(l)
-                body.append("obs " + o[2:].split(" D")[0])
+                body.append(o if o.startswith("exc ") else "obs " + o[2:].split(" D")[0])
+            for f in fresh:
+                j, rest = f.split(" ", 1)
+                body.append(f"after-clear {j} {impl_out[int(j)]}")
+                body.append(f"fresh {j} {rest}")
             return (f"judge-policy {case['policy']} {case['arg']}", body)
         if fam == "softttl":
             return (f"judge-softttl {case['hard']}", [l[3:] for l in impl_out if l.startswith("#j ")])
@@ -811,6 +987,7 @@ class C16(core.Property):
             body = self._store_head(case)
             last_b = ""
             k = 0
+            raised = []
             impl_out = self.compare_view(case, impl_out)
             warmobs = [l for l in impl_out if l.startswith("warm ")]
             impl_out = [l for l in impl_out if not l.startswith("warm ")]
@@ -824,8 +1001,12 @@ class C16(core.Property):
                 if k + 1 < len(impl_out) and impl_out[k + 1].startswith("ret "):
                     res = impl_out[k + 1].split()[2]
                     k += 1
+                if res.startswith("raised:"):
+                    raised.append(f"raised {l.split()[1]} {res[7:]}")
+                    res = "-"
                 body.append("obs" + left[3:] + " | R " + res)
                 k += 1
+            body += raised
             body.append("fin " + last_b)
             body += ["warmobs " + l[5:] for l in warmobs]
             return (f"judge-store {case['policy']} {case['arg']} {case['cap']} {case['wt']}", body)
@@ -890,6 +1071,7 @@ THEOREMS = [
     "HappyModel.C16.policy_keys_eq_cache_keys",
     "HappyModel.C16.policy_evict_none_iff_empty",
     "HappyModel.C16.policy_evict_returns_held_key",
+    "HappyModel.C16.policy_clear_is_fresh",
     "HappyModel.C16.size_le_capacity",
     "HappyModel.C16.store_policy_keys_eq_cache_keys",
     "HappyModel.C16.evict_break_unreachable",
